@@ -468,6 +468,9 @@ func (e *Engine) callContract(f *frame, st *State, callee *ssa.Function, fc *Fun
 		if post == nil {
 			continue
 		}
+		if len(pf.calls) > 0 {
+			continue // called(...) / result_of(...) speak about the callee's own trace: not a fact about this caller's
+		}
 		t := e.evalPost(cpkg, post, pf, fc, callee, args, rs, entry, st)
 		e.fact(imp(reach, t))
 	}
